@@ -48,8 +48,8 @@ func (o wOpts) opts() []carv2.Option {
 
 func (g *Gen) wOpts() wOpts {
 	o := wOpts{codec: []string{"mh", "mh", "sorted"}[g.pick(3)], mcs: 2048}
-	o.dp = []uint64{0, 0, 1, 13, 100}[g.pick(5)]
-	o.ip = []uint64{0, 0, 3, 64}[g.pick(4)]
+	o.dp = []uint64{0, 0, 0, 1, 13, 100, 100, 4097, 9000}[g.pick(9)]
+	o.ip = []uint64{0, 0, 0, 3, 64, 64, 4097}[g.pick(7)]
 	o.v1 = g.pick(4) == 0
 	o.sid = g.pick(2) == 0
 	o.dup = g.pick(3) == 0
